@@ -245,6 +245,7 @@ impl Harness for C03 {
             budget_s: if t { 2400 } else { 40 },
             case_deadline_ms: 20_000,
             floors: [vec![
+                ("binary_aliased_operands", 1_000),
                 ("incompatible_rejected", 1_000_000),
                 ("reshape_compatible", 20_000),
                 ("transpose_nonsquare", 4_000),
